@@ -76,6 +76,10 @@ HelpDocOf(cfg, n) ==
     required |-> [j \in 1..Len(req) |-> Entry(cfg, req[j])],
     options  |-> [j \in 1..Len(nrm) |-> Entry(cfg, nrm[j])],
     footer   |-> HelpOpt(cfg) # 0 /\ Cardinality(Children(cfg, n)) > 1,
+    \* ARGUMENTS section: the arguments declared with HelpSynopsisArg, unless there is just one without name or description
+    args     |-> LET as == Node(cfg, n).args ds == Node(cfg, n).argsd IN
+                 IF Len(as) = 0 \/ (Len(as) = 1 /\ (as[1] = <<>> \/ ds[1] = <<>>)) THEN <<>>
+                 ELSE [j \in 1..Len(as) |-> IF ds[j] = <<>> THEN as[j] ELSE as[j] \o <<" ">> \o NlToSp(ds[j])],
     name     |-> IF Node(cfg, n).parent # 0 \/ desc # <<>>
                  THEN PathOf(cfg, n) \o (IF desc = <<>> THEN <<>> ELSE <<" ", "-", " ">> \o NlToSp(desc))
                  ELSE <<>> ]
@@ -92,6 +96,7 @@ HelpDiffParts(cfg, n, r) ==
   \cup (IF Len(r.required) = Len(e.required) /\ \A j \in 1..Len(e.required) : EntryEq(e.required[j], r.required[j]) THEN {} ELSE {"required-list"})
   \cup (IF Len(r.options) = Len(e.options) /\ \A j \in 1..Len(e.options) : EntryEq(e.options[j], r.options[j]) THEN {} ELSE {"option-list"})
   \cup (IF r.footer = e.footer THEN {} ELSE {"footer"})
+  \cup (IF r.args = e.args THEN {} ELSE {"arguments"})
   \cup (IF r.name = e.name THEN {} ELSE {"name"})
   \cup (IF r.three THEN {} ELSE {"three-paths"})
 
